@@ -90,10 +90,10 @@ class Run:
         return out
 
     # ------------------------------------------------------------------ TLC
-    def tlc(self, module, cfg=None, env=None, workers=None, timeout=1800, heap="6g", extra=None, simulate=None):
+    def tlc(self, module, cfg=None, env=None, workers=None, timeout=1800, heap="6g", extra=None, simulate=None, gcthreads=None):
         """One TLC run; a run that ends without a verdict (no 'No error has been found', no violated property) is
         repeated once, so that a transient JVM failure on a loaded machine does not turn into exit 2."""
-        r = self._tlc(module, cfg, env, workers, timeout, heap, extra, simulate)
+        r = self._tlc(module, cfg, env, workers, timeout, heap, extra, simulate, gcthreads)
         if not r["ok"] and "violated" not in r["out"] and "Deadlock reached" not in r["out"]:
             log("TLC run of %s (%s) ended without a verdict (rc=%s); output tail:\n%s\n[check] repeating it once"
                 % (module, cfg, r["rc"], "\n".join(r["out"].splitlines()[-12:])))
@@ -101,12 +101,12 @@ class Run:
                 v = (env or {}).get(k)
                 if v and os.path.exists(v):
                     os.remove(v)
-            r = self._tlc(module, cfg, env, workers, timeout, heap, extra, simulate)
+            r = self._tlc(module, cfg, env, workers, timeout, heap, extra, simulate, gcthreads)
         return r
 
-    def _tlc(self, module, cfg=None, env=None, workers=None, timeout=1800, heap="6g", extra=None, simulate=None):
+    def _tlc(self, module, cfg=None, env=None, workers=None, timeout=1800, heap="6g", extra=None, simulate=None, gcthreads=None):
         meta = os.path.join(self.dir, "meta-%s-%d" % (module, len(self.mc_runs) + int(time.time() * 1000) % 100000))
-        cmd = ["java", "-XX:+UseParallelGC", "-Xmx" + heap, "-Xss256m", "-cp", CP, "tlc2.TLC",
+        cmd = ["java", "-XX:+UseParallelGC"] + (["-XX:ParallelGCThreads=%d" % gcthreads] if gcthreads else []) + ["-Xmx" + heap, "-Xss256m", "-cp", CP, "tlc2.TLC",
                "-metadir", meta, "-workers", str(workers or NCPU), "-fpmem", "0.15"]
         if cfg:
             cmd += ["-config", cfg]
@@ -212,33 +212,43 @@ class Run:
         # TLC parses the trace file single-threaded at start-up: big traces are validated as
         # several shards by concurrent TLC processes (histories are independent behaviours)
         size = os.path.getsize(trace)
-        nshards = 1 if size < 12 * 1024 * 1024 or nh < 8 else min(4, nh // 2, 1 + size // (12 * 1024 * 1024))
-        if nshards > 1:
+        target = 4 * 1024 * 1024
+        t_val = time.time()
+        if size >= 6 * 1024 * 1024 and nh >= 8:
             import concurrent.futures
-            shards = [trace + ".s%d" % k for k in range(nshards)]
-            outs = [open(sp, "w") for sp in shards]
+            # a validation run is one chain of states (no parallelism inside it) and parses its trace up front:
+            # cut the trace into shards of about 4 MB of whole histories and validate 8 of them at a time,
+            # each in a small JVM (2 workers, 2 GC threads, 3 GB heap)
+            shards = []
+            cur, cur_sz = None, 0
             with open(trace) as f:
-                k = 0
                 for line in f:
-                    if line.strip():
-                        outs[k % nshards].write(line)
-                        k += 1
-            for o in outs:
-                o.close()
-            w = max(2, (workers or NCPU) // nshards)
+                    if not line.strip():
+                        continue
+                    if cur is None or cur_sz >= target:
+                        if cur:
+                            cur.close()
+                        shards.append(trace + ".s%d" % len(shards))
+                        cur, cur_sz = open(shards[-1], "w"), 0
+                    cur.write(line)
+                    cur_sz += len(line)
+            if cur:
+                cur.close()
+            nshards = len(shards)
 
             def one(sp):
                 return self.tlc(module, cfg or module + ".cfg", env={"TRACE": sp, "VOUT": sp + ".verdicts"}, timeout=timeout,
-                                workers=w, heap="5g")
-            with concurrent.futures.ThreadPoolExecutor(nshards) as ex:
+                                workers=2, heap="3g", gcthreads=2)
+            with concurrent.futures.ThreadPoolExecutor(min(8, nshards)) as ex:
                 rs = list(ex.map(one, shards))
             r = dict(ok=all(x["ok"] for x in rs), out="\n".join(x["out"][-3000:] for x in rs if not x["ok"]),
                      distinct=sum(x["distinct"] for x in rs), generated=sum(x["generated"] for x in rs),
-                     wall=max(x["wall"] for x in rs))
+                     wall=round(time.time() - t_val, 1))
             with open(vout, "w") as fo:
                 for sp in shards:
                     if os.path.exists(sp + ".verdicts"):
                         fo.write(open(sp + ".verdicts").read())
+                    os.remove(sp)
         else:
             r = self.tlc(module, cfg or module + ".cfg", env={"TRACE": trace, "VOUT": vout}, timeout=timeout,
                          workers=workers, heap=heap)
